@@ -21,7 +21,9 @@ FILES = ["c16_content_test.go"]
 
 
 def absdir(shards):
-    return sorted((s["compound"], tuple((r["id"], r["tomb"]) for r in s["repos"])) for s in shards)
+    """abstract directory; compound shards without repositories are indistinguishable garbage (counted by the
+    trace spec), so they are left out of the comparison with TLC's prediction."""
+    return sorted((s["compound"], tuple((r["id"], r["tomb"]) for r in s["repos"])) for s in shards if s["repos"])
 
 
 def run(ctx):
@@ -94,12 +96,14 @@ def run(ctx):
             shown[why] = shown.get(why, 0) + 1
             if shown[why] > 3:
                 continue
+            start = max([e["_b"]] + [j for j in range(e["_b"], r["line"]) if events[j]["ev"] == "reset"])
             hist = [{k: x[k] for k in ("op", "via", "shards", "shard", "id", "reported")}
-                    for x in events[e["_b"]:r["line"]] if x["ev"] == "op"]
+                    for x in events[start:r["line"]] if x["ev"] == "op"]
+
             prev = events[r["line"] - 2]["state"] if r["line"] >= 2 and "state" in events[r["line"] - 2] else None
             detail = {"driver": name, "line": r["line"], "why": why, "occurrences_in_this_trace": per_sig[why],
                       "expected": r["expected"], "corpus": events[e["_b"]]["corpus"],
-                      "history_since_base": hist[-6:],
+                      "history_since_base_or_reset": hist[-6:],
                       "structure_before": prev["shards"] if prev else None,
                       "structure_after": e["state"]["shards"]}
             # the repository whose content / metadata differs
